@@ -16,7 +16,7 @@ func init() {
 		id: "C17",
 		li: levelInfo{
 			Level:       "other",
-			Explanation: "Static rules on the hot-restart control channel. R1 (table agreement): for every case of the request switch the handler performs exactly the Instance step that belongs to that request constant and then sends the reply whose message-type constant is the request's sibling; the default arm sends the unknown reply; the terminate handler acknowledges before signalling. R2: one loop iteration = one frame read, at most one handler call, executed synchronously (no goroutine), so steps are performed and acknowledged in request order. R3 (bit-level): the length written into header bytes 1-2 and the length the reader composes from them are inverse for all 2^16 values (GF(2)-affine interpretation); type at byte 0, payload from byte 3. R4 (zone domain): the payload slice [3 : 3+Len] has witnesses 3+Len <= bytes read (no garbage accepted) and <= buffer size (no crash). R5: child-side call order: shutdown parent admin, start admin, drain parent listeners, (delayed) terminate parent. R6: draining reaches only StopListen of each processor and acts on a listener that is not bound yet too. Kernel datagram semantics are not decided. R7: concrete-type tests on the frame reader's error can succeed (the reader passes the socket error through unchanged), so a departed child is recognised. R8: every step invoked on the Instance interface resolves to a declared method, not to a promotion wrapper that re-enters the same interface call. R1 also recovers a handler table indexed by the message type and proves its index with E-bounds. R9: no error return of the frame reader depends on the type byte. The frame layout may live in encode/decode helpers (the byte count is the length of the parameter that receives b[:n]); the dispatch may be a map keyed by the message type read with the comma-ok form.",
+			Explanation: "Static rules on the hot-restart control channel. R1 (table agreement): for every case of the request switch the handler performs exactly the Instance step that belongs to that request constant and then sends the reply whose message-type constant is the request's sibling; the default arm sends the unknown reply; the terminate handler acknowledges before signalling. R2: one loop iteration = one frame read, at most one handler call, executed synchronously (no goroutine), so steps are performed and acknowledged in request order. R3 (bit-level): the length written into header bytes 1-2 and the length the reader composes from them are inverse for all 2^16 values (GF(2)-affine interpretation); type at byte 0, payload from byte 3. R4 (zone domain): the payload slice [3 : 3+Len] has witnesses 3+Len <= bytes read (no garbage accepted) and <= buffer size (no crash). R5: child-side call order: shutdown parent admin, start admin, drain parent listeners, (delayed) terminate parent. R6: draining reaches only StopListen of each processor and acts on a listener that is not bound yet too. Kernel datagram semantics are not decided. R7: concrete-type tests on the frame reader's error can succeed (the reader passes the socket error through unchanged), so a departed child is recognised. R8: every step invoked on the Instance interface resolves to a declared method, not to a promotion wrapper that re-enters the same interface call. R1 also recovers a handler table indexed by the message type and proves its index with E-bounds. R9: no error return of the frame reader depends on the type byte. The frame layout may live in encode/decode helpers (the byte count is the length of the parameter that receives b[:n]); the dispatch may be a map keyed by the message type read with the comma-ok form. R10 (shared with C09.R11): the drain latch is read by binding/accepting code only. R1 recognises reply helpers and steps handed over as method values.",
 			TrustedBase: []string{"go/ssa", "samlint ebits.go, ebounds.go, zone.go"},
 		},
 		run: checkC17,
@@ -343,17 +343,68 @@ func checkC17(c *Ctx) {
 	if handleCall == nil || len(arms) == 0 {
 		c.Undecided("R1", "request switch", hc.Pos(), "cannot recover the request dispatch (a switch on the message type, or a handler table indexed by it, called through a variable)")
 	}
+	// reply helpers: functions of the package that send one of their own parameters as the message (a wrapper around
+	// the frame writer, or a "reply and run the step" helper); stepParam: the function parameter such a helper calls,
+	// and whether that call comes before the send
+	sendLike := map[*ssa.Function]int{}
+	type stepInfo struct {
+		idx        int
+		beforeSend bool
+		afterSend  bool
+	}
+	stepParam := map[*ssa.Function]stepInfo{}
+	for _, hf := range p.FuncsIn(hrPkg) {
+		if p.isTestFn(hf) || hf == send {
+			continue
+		}
+		var sendIn ssa.Instruction
+		eachInstr(hf, func(_ *ssa.BasicBlock, _ int, in ssa.Instruction) {
+			call, ok := in.(*ssa.Call)
+			if !ok || !isCallToFn(call, send) || len(call.Call.Args) < 2 {
+				return
+			}
+			if prm, ok := call.Call.Args[1].(*ssa.Parameter); ok {
+				sendLike[hf] = paramIndex(hf, prm)
+				sendIn = in
+			}
+		})
+		if sendIn == nil {
+			continue
+		}
+		eachInstr(hf, func(_ *ssa.BasicBlock, _ int, in ssa.Instruction) {
+			cc := callOf(in)
+			if cc == nil || cc.IsInvoke() || calleeFn(cc) != nil {
+				return
+			}
+			if prm, ok := cc.Value.(*ssa.Parameter); ok {
+				if _, isSig := prm.Type().Underlying().(*types.Signature); isSig {
+					stepParam[hf] = stepInfo{paramIndex(hf, prm), findPath(entryPos(hf), pathQuery{target: func(x ssa.Instruction) bool { return x == sendIn }, avoid: func(x ssa.Instruction) bool { return x == in }}) == nil, instrDominates(sendIn, in)}
+				}
+			}
+		})
+	}
 	replyConstOf := func(fn *ssa.Function) (int64, ssa.Instruction, bool) {
 		var val int64
 		var at ssa.Instruction
 		found := false
 		eachInstr(fn, func(_ *ssa.BasicBlock, _ int, in ssa.Instruction) {
 			call, ok := in.(*ssa.Call)
-			if !ok || !isCallToFn(call, send) {
+			if !ok {
+				return
+			}
+			msgIdx := -1
+			if isCallToFn(call, send) {
+				msgIdx = 1
+			} else if g := calleeFn(call.Common()); g != nil {
+				if i, ok := sendLike[g]; ok {
+					msgIdx = i
+				}
+			}
+			if msgIdx < 0 || msgIdx >= len(call.Call.Args) {
 				return
 			}
 			// message argument: result of a constructor that calls newMessage(const, ...)
-			mc, ok := call.Call.Args[1].(*ssa.Call)
+			mc, ok := call.Call.Args[msgIdx].(*ssa.Call)
 			if !ok {
 				return
 			}
@@ -415,12 +466,57 @@ func checkC17(c *Ctx) {
 				}
 			}
 		})
+		// the step handed to a reply helper as a method value: the helper decides the order
+		viaHelper, helperStepFirst := false, false
+		var killInClosure, helperSendFirst bool
+		if sc, ok := sendAt.(*ssa.Call); ok {
+			if hf := calleeFn(sc.Common()); hf != nil {
+				if si, ok := stepParam[hf]; ok && si.idx < len(sc.Call.Args) {
+					{
+						if w := funcValue(sc.Call.Args[si.idx]); w != nil {
+							name := ""
+							if w.Synthetic != "" {
+								if mo, _ := w.Object().(*types.Func); mo != nil {
+									name = mo.Name()
+								}
+							} else {
+								eachInstr(w, func(_ *ssa.BasicBlock, _ int, x ssa.Instruction) {
+									if cc := callOf(x); cc != nil && cc.IsInvoke() && instMethods[cc.Method.Name()] {
+										name = cc.Method.Name()
+									}
+									if cc := callOf(x); cc != nil && !cc.IsInvoke() && calleeFn(cc) == nil {
+										if u, ok := cc.Value.(*ssa.UnOp); ok {
+											if g, ok := u.X.(*ssa.Global); ok && g.Name() == "kill" {
+												killInClosure = true
+											}
+										}
+									}
+								})
+							}
+							if instMethods[name] {
+								viaHelper, helperStepFirst = true, si.beforeSend
+								if name == step {
+									stepCalls = append(stepCalls, sendAt)
+								} else {
+									otherSteps = append(otherSteps, name)
+								}
+							}
+							helperSendFirst = si.afterSend
+						}
+					}
+				}
+			}
+		}
 		if instMethods[step] {
 			okStep := len(stepCalls) == 1 && len(otherSteps) == 0
 			c.Check(okStep, "R1", site+" step", a.fn.Pos(), "performs exactly Instance."+step+"() once", fmt.Sprintf("the handler of %s performs %d x %s and also %v: the requested step is not performed exactly once", reqName, len(stepCalls), step, otherSteps))
-			if okStep {
+			if okStep && viaHelper {
+				c.Check(helperStepFirst, "R1", site+" acknowledges after performing", sendAt.Pos(), "the reply helper runs the step before it sends the reply", "the step is acknowledged before it is performed: the reply helper sends the reply first and runs the step afterwards, so the child acts (binds the admin port, takes over the configuration store, starts serving) while the parent is still in the middle of the step")
+			} else if okStep {
 				c.Check(instrDominates(stepCalls[0], sendAt), "R1", site+" acknowledges after performing", sendAt.Pos(), "the step dominates the reply", "the step is acknowledged before it is performed")
 			}
+		} else if killInClosure {
+			c.Check(helperSendFirst && len(otherSteps) == 0, "R1", site+" acknowledges before signalling", sendAt.Pos(), "the reply helper sends the reply before it runs the signalling step", "the terminate handler signals the process before (or without) acknowledging, or performs another step")
 		} else {
 			// terminate: acknowledge first, then signal
 			var kill ssa.Instruction
